@@ -28,7 +28,7 @@ ENCODED = [watching.infinite_watch, watching.continuous_watch, watching.watch_ob
            fetching.list_objs, orchestration.adjust_tasks, orchestration.terminate_redundancies,
            orchestration.spawn_missing_watchers, orchestration.spawn_missing_peerings, orchestration.orchestrator]
 META = {
-    'bounds': 'H1: one resource/namespace, one object, <=3 changes at symbolic gaps, <=3 connections with a symbolic fault each (EOF, '
+    'bounds': 'h_adjust_peering: namespaced peering over two namespaces, a symbolic conflict toggle per namespace, a symbolic second revision of the served namespaces. H1: one resource/namespace, one object, <=3 changes at symbolic gaps, <=3 connections with a symbolic fault each (EOF, '
               'connection error, timeout, ERROR 410, 429 on connect, unknown ERROR, BOOKMARK then EOF, an event without any version then EOF) after a symbolic number of '
               'delivered events, optional compaction (410 for an old version), one pause/resume window at symbolic instants; gaps and pause instants <= 30 s; '
               'the inactivity timeout is concrete per cell: 10000 s (never fires) or 2 s with gaps <= 5 s (fires between changes). '
